@@ -99,7 +99,7 @@ def build_inputs(rng, tier):
         w = f.get("witness") or {}
         if "domain_text" in w:
             inputs.append(dict(w, kind="witness:" + f["id"], witness_of=f["id"] if f["status"] == "open" else None))
-    n = {"quick": 40, "thorough": 500}[tier]
+    n = {"quick": 40, "thorough": 350}[tier]
     for _ in range(n):
         inputs.append(world_case(rng, "single"))
     for _ in range(n // 2):
